@@ -7,4 +7,10 @@ require (
 	pgregory.net/rapid v1.3.0
 )
 
+require (
+	golang.org/x/exp v0.0.0-20231110203233-9a3e6036ecaa // indirect
+	golang.org/x/exp/typeparams v0.0.0-20231108232855-2478ac86f678 // indirect
+	golang.org/x/tools v0.44.1-0.20260420230617-19499e7caabc // indirect
+)
+
 replace honnef.co/go/tools => /repo
